@@ -11,6 +11,7 @@ import (
 	"os"
 	"path/filepath"
 	"strings"
+	"sync"
 	"testing"
 	"time"
 	"unicode/utf8"
@@ -321,4 +322,104 @@ func TestVerifC37RegressQuote(t *testing.T) {
 		r := c37Record{level: Info, format: "%s", args: []any{msg}, instant: at, want: c37Scrub(msg)}
 		c37Run(t, []c37Record{r})
 	}
+}
+
+// ---------------------------------------------------------------------------------------------
+// Concurrent writers (round-2 seeded change C37-s2): records logged at the same time by several goroutines
+// must still come out as one JSON line each, none lost, none merged.
+// ---------------------------------------------------------------------------------------------
+
+type c37LockedBuffer struct {
+	mu sync.Mutex
+	b  bytes.Buffer
+}
+
+func (w *c37LockedBuffer) Write(p []byte) (int, error) {
+	w.mu.Lock()
+	defer w.mu.Unlock()
+	return w.b.Write(p)
+}
+
+func TestVerifC37Concurrent(t *testing.T) {
+	rec := kit.R("TestVerifC37Concurrent")
+	t.Cleanup(kit.Flush)
+
+	rapid.Check(t, func(t *rapid.T) {
+		writers := rapid.IntRange(2, 8).Draw(t, "writers")
+		per := rapid.IntRange(20, 120).Draw(t, "recordsPerWriter")
+		base, cls := c37Message(t, "m")
+		instant := c37Instant(t)
+
+		dir, err := os.MkdirTemp(os.Getenv("VERIF_WORKDIR"), "c37c-")
+		if err != nil {
+			t.Fatalf("VERIF-INCONCLUSIVE: %v", err)
+		}
+		defer os.RemoveAll(dir)
+		fpath := filepath.Join(dir, "mediamtx.log")
+		stdout := &c37LockedBuffer{}
+		l := &Logger{
+			Level:        Debug,
+			Destinations: []Destination{DestinationStdout, DestinationFile},
+			Structured:   true,
+			File:         fpath,
+			timeNow:      func() time.Time { return instant },
+			stdout:       stdout,
+		}
+		if err = l.Initialize(); err != nil {
+			t.Fatalf("VERIF-INCONCLUSIVE: %v", err)
+		}
+		want := map[string]int{}
+		var wg sync.WaitGroup
+		start := make(chan struct{})
+		for g := 0; g < writers; g++ {
+			msgs := make([]string, per)
+			for j := range msgs {
+				// different lengths per writer make a merged or overwritten buffer visible
+				msgs[j] = fmt.Sprintf("w%d-%d-%s-%s", g, j, strings.Repeat("x", (g*7+j)%40), base)
+				want[c37Scrub(msgs[j])]++
+			}
+			wg.Add(1)
+			go func() {
+				defer wg.Done()
+				<-start
+				for _, m := range msgs {
+					l.Log(Info, "%s", m)
+				}
+			}()
+		}
+		close(start)
+		wg.Wait()
+		l.Close()
+
+		judge := func(where string, out []byte) {
+			got := map[string]int{}
+			lines := bytes.Split(out, []byte("\n"))
+			if len(lines) == 0 || len(lines[len(lines)-1]) != 0 {
+				t.Fatalf("%s: output does not end with a newline", where)
+			}
+			for i, line := range lines[:len(lines)-1] {
+				var obj map[string]any
+				if !utf8.Valid(line) || json.Unmarshal(line, &obj) != nil {
+					t.Fatalf("%s: line %d written by %d concurrent writers is not a JSON object: %q", where, i, writers, line[:min(len(line), 300)])
+				}
+				msg, _ := obj["message"].(string)
+				got[msg]++
+			}
+			for m, n := range want {
+				if got[m] != n {
+					t.Fatalf("%s: record %q appears %d times in the output, it was logged %d times (%d concurrent writers)", where, m[:min(len(m), 80)], got[m], n, writers)
+				}
+			}
+			if len(lines)-1 != writers*per {
+				t.Fatalf("%s: %d lines for %d records", where, len(lines)-1, writers*per)
+			}
+		}
+		judge("stdout", stdout.b.Bytes())
+		fb, err := os.ReadFile(fpath)
+		if err != nil {
+			t.Fatalf("VERIF-INCONCLUSIVE: %v", err)
+		}
+		judge("file", fb)
+		rec.Case(true, fmt.Sprintf("writers=%d per=%d base=%q", writers, per, base[:min(len(base), 60)]), append(cls, "concurrent")...)
+	})
 }
